@@ -268,7 +268,7 @@ def gen_plan(r, tier, index):
         ops_ = []
         # ... or TWO puts cut short: a long block first, whose remains reach far past the end of the library, then a short
         # one whose few bytes land inside those remains - header and half a key of the second, the rest of "its" block
-        # supplied by the first (found by the thorough tier as a record nobody stored; repaired by f023e19).
+        # supplied by the first (found by the thorough tier as a record nobody stored; repaired by a103f5a).
         twice_ = r.random() < 0.5
         for q_ in range(4):
             tag += 1
